@@ -450,7 +450,8 @@ def rebaseline():
             except prove.Demoted:
                 continue
             failed = {ob.label for ob in pr.failed}
-            partial[q] = sorted({norm_label(l) for l in pr.all_labels if l not in failed})
+            # only obligations that discharge well inside the quick budget count as "discharged on the baseline"
+            partial[q] = sorted({norm_label(l) for l in pr.all_labels if l not in failed and pr.times.get(l, 999) < 12})
             print(f"partial baseline for {q}: {len(partial[q])} discharged, {len(failed)} open")
     json.dump(partial, open(os.path.join(ROOT, "baseline", "partial.json"), "w"), indent=1, sort_keys=True)
     return 0
